@@ -85,7 +85,11 @@ func genRaBytes(r *rand.Rand, maxLines int) string {
 			lines = append(lines, pick(r, []string{"", "", " ", "\t"}))
 		}
 	}
-	return joinLines(r, lines, 0.15, chance(r, 0.8))
+	out := joinLines(r, lines, 0.15, chance(r, 0.8))
+	if chance(r, 0.06) {
+		out = "\ufeff" + out // a byte order mark: three bytes of the first line, for the compiler and the formatter alike
+	}
+	return out
 }
 
 // genBigRa: a well-formed but untidy assembly file of 5 KiB … 80 KiB — more than one buffer-full of every reader and
